@@ -54,6 +54,21 @@ BUILT = {
             "Every history within the bounds over block parameters (timestamps 0, 2^32, 2^64-1; explicit and server-generated hashes), inscription calls by two senders, signed transactions executed directly and parked-then-drained, deposits / withdrawals, 1 and 255 idle blocks, commit and reorg, on regtest (Prague), signet and mainnet (Cancun at low heights): the probe contract's record of NUMBER, TIMESTAMP, PREVRANDAO, CHAINID, BASEFEE, GASPRICE, COINBASE, ORIGIN, CALLER, BLOCKHASH(n-1, n-2, n-256, n-257) and the answer of the current-txid helper must equal what the harness supplied for that very transaction (for a drained transaction: the draining block's context and its own txid); the helper must not exist before Prague; deposits / withdrawals execute as the indexer address.",
             "Bounded histories. The zero transaction id of deposits / withdrawals is not observable from contract code the harness controls and is not checked.",
             "DESIGN.md §4 C19"),
+    "C13": ("store", "model_checking",
+            "explicit-state BFS over the real store components (pure history object; RocksDB-backed tables) against a reference versioned map",
+            "(a) breadth-first search over (encoded bytes of the real BlockHistoryCacheData, current block, reference model) with set / unset / next block / skip W-1 blocks / reorg 1..W+2 blocks back, from the empty object and from six seeds at the window edges, to the stated depth: latest = model, a reorg within W of the highest block ever written restores the model's value, a deeper one panics or is right, at most W+1 versions, encode/decode identity in every state. (b) breadth-first search over BlockCachedDatabase + BlockDatabase on real RocksDB (states re-created by wipe + replay) with set / unset on three keys, next block, skip, commit, clear, reopen, reorg: in every state latest for 4 keys, get_range for all 15 (start,end) pairs (complete and in key order), all(), version bound, block table get / last_key equal a BTreeMap model.",
+            "Depth-bounded (the space does not close: block numbers grow). Caller contract of Appendix D: a table is only rolled back to blocks within W of the highest block it has seen (the engine refuses anything else; C01 checks that).",
+            "DESIGN.md §4 C13, Appendix D"),
+    "C14": ("store", "exploration",
+            "bounded-exhaustive enumeration of per-type value grids (full product of per-field menus) through the real codecs",
+            "For every persisted / served type the full product of per-field menus (boundary integers, empty / 1 / 31 / 32 / 33 / 65536-byte strings, None / Some at every optional position, 0..4 topics, traces nested 0..2 deep, blocks with 0..3 transactions; 2-value menus for the wide structs: 8192 transactions, 6144 receipts, 2048 blocks): decode(encode v) = v consuming exactly the bytes produced, also with trailing bytes present; concatenated pairs decode to the pair; for all pairs of keys of every key type used in range scans the order of the encodings equals the order of the values; JSON serialise / deserialise / serialise reproduces the text.",
+            "Weakest form of the family: nothing is claimed outside the grid. Constants the module fills in on decode (chain id of the configuration, legacy header fields) are held at those constants.",
+            "DESIGN.md §4 C14"),
+    "C15": ("store", "exploration",
+            "bounded-exhaustive enumeration of payloads through the real encoder / decoder, plus twin-instance comparison of the two submission fields",
+            "All byte strings of length <= 2 (thorough; quick: all of length <= 1 and a rotating slice of length 2) and a length grid up to LIMIT+2 in five content classes are packed with the published encoder and decoded with 0..3 '=' appended; raw / nada / zstd payloads of LIMIT-1, LIMIT, LIMIT+1 bytes forced by hand with and without declared frame size, 64 MiB bombs, unknown prefixes 3..255, degenerate and truncated strings: the decoder never panics and never yields more than the limit; 12 payloads x {deploy, call, transact} x padding submitted through the hex field and through the base64 field on twin instances give identical receipts and observations.",
+            "A string the published encoder refuses to pack (incompressible, within ~0.1% of the limit) is outside the statement. Nothing is claimed for payloads outside the grid.",
+            "DESIGN.md §4 C15"),
 }
 
 NOT_BUILT_REASON = "check not built yet in this round (planned in DESIGN.md §4); nothing is claimed for it"
@@ -91,6 +106,8 @@ def main():
         "engines": [
             {"name": "hist", "path": "/verif/mc/src/explore.rs", "serves_properties": [p for p in props if p in BUILT and BUILT[p][0] == "hist"],
              "kind_free_text": "history explorer: exhaustive enumeration of call sequences on the real engine (wipe + replay), protocol automaton + normal-form differential oracle"},
+            {"name": "store", "path": "/verif/mc/src/props/c13.rs", "serves_properties": [p for p in props if p in BUILT and BUILT[p][0] == "store"],
+             "kind_free_text": "component explorer: BFS over the real store components against reference models; complete value grids through the real codecs"},
         ],
         "checks": checks,
         "not_applicable": [{"property_id": p, "reason": NOT_BUILT_REASON} for p in props if p not in BUILT],
